@@ -350,6 +350,11 @@ fn trial(front: Front, scenario: u32, psite: u32, occ: u64, with_signal: bool, s
             closer_join = Some(std::thread::spawn(move || {
                 crate::set_thread(6, class::MUTATOR);
                 pin_thread(0, cpu);
+                // burn some CPU there first, so that the scheduler prefers the long-sleeping consumer as soon as it is woken
+                let t0 = crate::now_ms();
+                while crate::now_ms() - t0 < 3 {
+                    std::hint::spin_loop();
+                }
                 h.close();
                 director::lib_exit();
                 done.store(true, Ordering::SeqCst);
@@ -472,7 +477,7 @@ pub fn main(args: &[String]) -> i32 {
                     trial(front, 1, 0, 1, with_signal, sig, &mut rng, &mut tot);
                 }
             }
-            for i in 0..(random_n / 3).max(20) {
+            for i in 0..(random_n / 3).max(30) {
                 trial(front, 3, 0, 0, i % 4 == 0, sig, &mut rng, &mut tot);
                 if !tot.bad.is_empty() && !crate::has_flag(args, "--keep-going") || tot.inconclusive.is_some() {
                     break 'all;
